@@ -25,6 +25,10 @@ package main
 //                  h.Sum(nil) is a PARAMETER f_sum of the translated function applied to them (loops_rec.go)
 //   encoding.BinaryMarshaler   List (BitVec 8) × Option String: the result of its MarshalBinary(); a slice of them is the list
 //                  of these pairs, read-only (loops_rec.go)
+//   uint32         BitVec 32 unsigned; []uint32 List (BitVec 32); a named slice type is its underlying type, also as the value
+//                  receiver of a method: then the receiver is the first parameter (loops_strs.go)
+//   []string       List (List (BitVec 8)), only as the result of a library call bound to a local or ranged over, read-only
+//                  (len, m[i], range) (loops_strs.go)
 //
 // Statements: x := e, var x T [= e], x = e, x op= e, x++/x--, a[i] = e, _ = a[c] (bounds-check hint), if/else without
 // init, return (anywhere, see below), `for i := range a`, `for _, v := range a`, `for i := range n` (int),
@@ -41,6 +45,10 @@ package main
 // of the same package translated earlier in the same translateLoopFuncs call (unless they can panic or
 // write into a parameter), math/bits.TrailingZeros, math/bits.Len, fmt.Errorf("…%w…", …, ErrX, …), nil and package-level
 // errors.New variables as error values, &T{ErrX, off}.
+// Library functions: strings.TrimPrefix, strings.Split with a one-byte constant separator and fmt.Sprintf with one %d of an
+// unsigned integer are defined in Iota/Model/GoBits.lean; strings.ToLower/ToUpper/LastIndex, strconv.ParseUint (two results)
+// and v.FindStringSubmatch on a package-level *regexp.Regexp are PARAMETERS of the translation (loops_strs.go: externFns,
+// externMethods; strsHeaderText states all of stage 8).
 // A function that calls itself is a definition by structural recursion on an additional parameter `fuel : Nat`; none then
 // means panic or fuel exhausted (loops_rec.go: recHeaderText states all of stage 7).
 //
@@ -249,24 +257,27 @@ func typeCheck(p *pkg) *typedPkg {
 type lkind int
 
 const (
-	kInt    lkind = iota // int, int64
-	kUint                // uint, uint64
-	kByte                // byte
-	kBool                // bool
-	kBytes               // []byte
-	kInts                // []int
-	kString              // string
-	kInt8                // int8
-	kInt8s               // []int8
-	kUints               // []uint
-	kErr                 // error
-	kErrAt               // error in a function that builds &T{ErrX, off}: the pair (name of ErrX, off)
-	kErrOpt              // error in a function that returns both plain and positioned errors: (name, optional offset)
-	kRune                // rune / int32: BitVec 32 read as two's complement
-	kInt8ss              // [][]int8 (only as a parameter: rows are read as x[j][lo:] arguments, assigned by make, or written through callees)
-	kHash                // a local of type hash.Hash: the bytes written to it so far (loops_rec.go)
-	kMarsh               // encoding.BinaryMarshaler: the result (bytes, error) of its MarshalBinary() (loops_rec.go)
-	kMarshs              // []encoding.BinaryMarshaler (read-only: indexed, measured, windows as arguments)
+	kInt     lkind = iota // int, int64
+	kUint                 // uint, uint64
+	kByte                 // byte
+	kBool                 // bool
+	kBytes                // []byte
+	kInts                 // []int
+	kString               // string
+	kInt8                 // int8
+	kInt8s                // []int8
+	kUints                // []uint
+	kErr                  // error
+	kErrAt                // error in a function that builds &T{ErrX, off}: the pair (name of ErrX, off)
+	kErrOpt               // error in a function that returns both plain and positioned errors: (name, optional offset)
+	kRune                 // rune / int32: BitVec 32 read as two's complement
+	kInt8ss               // [][]int8 (only as a parameter: rows are read as x[j][lo:] arguments, assigned by make, or written through callees)
+	kHash                 // a local of type hash.Hash: the bytes written to it so far (loops_rec.go)
+	kMarsh                // encoding.BinaryMarshaler: the result (bytes, error) of its MarshalBinary() (loops_rec.go)
+	kMarshs               // []encoding.BinaryMarshaler (read-only: indexed, measured, windows as arguments)
+	kUint32               // uint32: BitVec 32 unsigned (loops_strs.go)
+	kUint32s              // []uint32
+	kStrings              // []string, only as the result of a library call (read-only: indexed, measured, ranged over; loops_strs.go)
 )
 
 func (k lkind) lean() string {
@@ -275,8 +286,12 @@ func (k lkind) lean() string {
 		return "BitVec 64"
 	case kByte, kInt8:
 		return "BitVec 8"
-	case kRune:
+	case kRune, kUint32:
 		return "BitVec 32"
+	case kUint32s:
+		return "List (BitVec 32)"
+	case kStrings:
+		return "List (List (BitVec 8))"
 	case kBool:
 		return "Bool"
 	case kBytes, kString, kInt8s, kHash:
@@ -306,7 +321,7 @@ func (k lkind) width() int {
 		return 64
 	case kByte, kInt8:
 		return 8
-	case kRune:
+	case kRune, kUint32:
 		return 32
 	}
 	die("lkind.width")
@@ -314,10 +329,10 @@ func (k lkind) width() int {
 }
 
 func (k lkind) isNum() bool {
-	return k == kInt || k == kUint || k == kByte || k == kInt8 || k == kRune
+	return k == kInt || k == kUint || k == kByte || k == kInt8 || k == kRune || k == kUint32
 }
 func (k lkind) isSlice() bool {
-	return k == kBytes || k == kInts || k == kInt8s || k == kUints || k == kInt8ss
+	return k == kBytes || k == kInts || k == kInt8s || k == kUints || k == kInt8ss || k == kUint32s
 }
 func (k lkind) isSigned() bool { return k == kInt || k == kInt8 || k == kRune }
 
@@ -333,6 +348,10 @@ func (k lkind) elem() lkind {
 		return kUint
 	case kInt8ss:
 		return kInt8s
+	case kUint32s:
+		return kUint32
+	case kStrings:
+		return kString
 	}
 	die("lkind.elem")
 	return 0
@@ -352,6 +371,10 @@ func init() {
 		leanReserved[w] = true
 	}
 }
+
+// leanRenamed: Lean keywords that are not rejected as variable names (leanReserved) but renamed (x ↦ x_2) in the
+// generated text.
+var leanRenamed = map[string]bool{"matches": true}
 
 // ---------------------------------------------------------------- translator state
 
@@ -440,6 +463,8 @@ type loopTr struct {
 	hashDeps   map[string]string                // the parameters f_sum this function introduces: name -> field name
 	selfArgs   []selfArg                        // slice arguments of the calls of itself (for the capacity caveat)
 	capCaveat  []string                         // parameters for which that caveat applies (for the doc comment)
+	// stage 8 (loops_strs.go)
+	recvParam *ast.Ident // the value receiver `p T` of a method on a named slice type: translated as the first parameter
 }
 
 func (t *loopTr) fail(n ast.Node, format string, a ...interface{}) {
@@ -480,6 +505,8 @@ func (t *loopTr) kindOf(ty types.Type, at ast.Node) lkind {
 			return kInt8
 		case types.Int32: // rune
 			return kRune
+		case types.Uint32:
+			return kUint32
 		case types.Bool, types.UntypedBool:
 			return kBool
 		case types.String:
@@ -494,6 +521,9 @@ func (t *loopTr) kindOf(ty types.Type, at ast.Node) lkind {
 		}
 		if k, ok := nestedKind(ty); ok {
 			return k
+		}
+		if b, ok := u.Elem().(*types.Basic); ok && b.Kind() == types.String {
+			return kStrings // only as the result of a library call; everything but reading it is rejected where it is used
 		}
 	case *types.Pointer: // *[N]T, only for parameters that are read by index (checked where it is used)
 		if a, ok := u.Elem().Underlying().(*types.Array); ok {
@@ -538,6 +568,8 @@ func sliceKind(elem types.Type) (lkind, bool) {
 			return kInt8s, true
 		case types.Uint, types.Uint64:
 			return kUints, true
+		case types.Uint32:
+			return kUint32s, true
 		}
 	}
 	return 0, false
